@@ -424,9 +424,11 @@ class Path:
         saved_pc = len(self.pc)
         self.solver.push()
         self.pure += 1              # element expressions are read totally here (their side conditions are checked on access)
+        self.code_eval = getattr(self, "code_eval", 0) + 1      # ... but names resolve as in the code, not as spec functions
         try:
             elem = z3.simplify(self.box(rule(istar)))
         finally:
+            self.code_eval -= 1
             self.pure -= 1
             self.solver.pop()
             del self.pc[saved_pc:]
